@@ -8,7 +8,7 @@ mkdir -p .cache/bin .cache/overlay .cache/go-build evidence out
 python3 tools/gen_overlay.py
 cp /repo/go.sum harness/go.sum
 cd harness
-for b in e3 clustermc schedmc; do
+for b in e3 clustermc schedmc deploymc; do
   go build -tags verif -overlay "$VERIF_OVERLAY" -o /verif/.cache/bin/$b ./cmd/$b
 done
 echo "setup ok"
